@@ -1054,9 +1054,10 @@ class FactsAnalysis:
                 elif op == "Ne":
                     op = "Eq"
             # unsigned idioms: 0 < x == x != 0 ; x <= 0 == x == 0
-            if op == "Lt" and _is_zero(a):
+            # (only for unsigned operands: the constant carries the comparison's type)
+            if op == "Lt" and _is_zero(a) and _unsigned(a[2]):
                 op, a, b = "Ne", b, a
-            elif op == "Le" and _is_zero(b):
+            elif op == "Le" and _is_zero(b) and _unsigned(b[2]):
                 op = "Eq"
             sa, sb = show(a), show(b)
             if op in ("Eq", "Ne") and sb < sa:
